@@ -467,6 +467,8 @@ def cases(tier, seed):
   add('case_unit_output', layer='lattice', sizes=[2, 2, 2], units=2)
   add('case_unit_output', layer='pwl', nk=3, units=3)
   add('case_unit_output', layer='pwl', nk=3, units=2, kptype='learned_interior')
+  add('case_unit_output', layer='pwl', nk=4, units=3, cyclic=True)
+  add('case_unit_output', layer='pwl', nk=3, units=2, cyclic=True, missing=True)
   add('case_unit_output', layer='linear', n=3, units=2)
   add('case_unit_output', layer='kfl', ls=2, dims=2, terms=2, units=2)
   add('case_unit_output', layer='kfl', ls=3, dims=2, terms=1, units=2)
